@@ -80,4 +80,35 @@ theorem async_request_eq_sync (s : StoreCfg) (hcold : s.hot = false) (hmh : s.ma
   cases h1'
   exact h3 k
 
+/-! ## `seq.AggFunc` <-> wire `AggFunc` (pkg/storeapi/mappings.go)
+
+`funcMappings[f]` is the wire value of `f`; `funcMappingsPb` is built as its inverse (`mappings[to] = from`).  The store
+echoes the persisted aggregation queries of an async search through `ToProtoAggFunc`, the proxy reads them back with
+`MustAggFunc` to compute the aggregation result. -/
+
+/-- the inverse table: entry `v` = the index at which `t` holds `v` -/
+def invTable (t : List Nat) : List Nat := (List.range t.length).map (fun v => t.idxOf v)
+
+theorem idxOf_getElem_nodup (t : List Nat) (hnd : t.Nodup) (i : Nat) (hi : i < t.length) : t.idxOf t[i] = i := by
+  induction t generalizing i with
+  | nil => simp at hi
+  | cons a r ih =>
+    have h' := List.nodup_cons.mp hnd
+    cases i with
+    | zero => simp
+    | succ j =>
+      have hj : j < r.length := by simpa using hi
+      have hne : a ≠ r[j] := fun e => h'.1 (e ▸ List.getElem_mem hj)
+      simp only [List.getElem_cons_succ, List.idxOf_cons]
+      have : (a == r[j]) = false := by simpa using hne
+      simp [this, ih h'.2 j hj]
+
+/-- **the function mapping is a bijection**: for an injective table whose values are below its length, reading the
+inverse table at the wire value gives the function back -/
+theorem aggFunc_roundtrip (t : List Nat) (hnd : t.Nodup) (i : Nat) (hi : i < t.length) (hv : t[i] < t.length) :
+    (invTable t)[t[i]]? = some i := by
+  unfold invTable
+  rw [List.getElem?_map, List.getElem?_range hv]
+  simp [idxOf_getElem_nodup t hnd i hi]
+
 end SV.Async
